@@ -461,3 +461,107 @@ def tstat_cell(B, p, n, pa, na):
     statement's radicand can be negative)"""
     var = p * (1.0 - p) / n + pa * (1.0 - pa) / na
     return (p - pa) / B.sqrt(abs(var))
+
+
+# =======================================================================================
+# strands (1-D partitions; cr.cube.stripe).  T is the measure tensor of the strand already
+# restricted to valid elements: (R,) for a categorical or numeric-array rows dimension,
+# (R, 2) = [selected, other] for a multiple-response one.  A "blocks spec" of a strand is the
+# pair [base values (R,), subtotal values (S,)].
+SKINDS = ("CAT", "MR", "ARR")
+STRIPE_COUNTS_CLASS = {"CAT": "_CatCubeCounts", "MR": "_MrCubeCounts", "ARR": "_NumArrCubeCounts"}
+
+
+def s_shape(kind, R):
+    return (R, 2) if kind == "MR" else (R,)
+
+
+def s_count(B, T, kind, i):
+    """respondents belonging to row element i (MR: who selected item i)"""
+    return B.rd(T, i, 0) if kind == "MR" else B.rd(T, i)
+
+
+def s_base(B, T, kind, R, i):
+    """respondents eligible for the table proportion of row i: any valid category (CAT),
+    non-missing on item i (MR: selected or other), the item's valid count (numeric array)"""
+    if kind == "CAT":
+        return B.Sum(R, lambda k: B.rd(T, k))
+    if kind == "MR":
+        return B.rd(T, i, 0) + B.rd(T, i, 1)
+    return B.rd(T, i)
+
+
+def s_pruning_base(B, T, kind, R, i):
+    """C09: a categorical row is empty iff nobody is in it; an MR item that was answered but
+    never selected is not empty"""
+    if kind == "MR":
+        return B.rd(T, i, 0) + B.rd(T, i, 1)
+    return B.rd(T, i)
+
+
+def s_pair(B, env, f0, f1):
+    return [B.spec_tensor((env.R,), f0), B.spec_tensor((env.rows.S,), f1)]
+
+
+def s_count_blocks(B, env, cc, diff_nans=False):
+    """C04 for a strand: signed merge; in a valid-count response a difference is NaN"""
+    rows, cnt = env.rows, cc.counts
+
+    def f1(s):
+        v = rows.signed_sum(s, lambda i: B.rd(cnt, i))
+        return B.ite(B.band(diff_nans, rows.is_diff(s)), B.NaN(), v) if diff_nans is not False else v
+
+    return s_pair(B, env, lambda i: B.rd(cnt, i), f1)
+
+
+def s_base_blocks(B, env, cc):
+    """merging (or subtracting) categories never changes who answered the question: every
+    subtotal has the table base"""
+    return s_pair(B, env, lambda i: B.rd(cc.bases, i), lambda s: cc.table_base)
+
+
+def s_proportion_blocks(B, env, cc):
+    """C03 for a strand + the categorical-date rule of C04: a difference with several terms on
+    either side is NaN; a one-minus-one difference is the difference of the two percentages
+    (both over the table base, hence the signed count over the table base)"""
+    rows, cnt = env.rows, cc.counts
+
+    def f1(s):
+        p = rows.signed_sum(s, lambda i: B.rd(cnt, i)) / cc.table_base
+        if env.date:
+            return B.ite(wave_multi(rows, s), B.NaN(), p)
+        return p
+
+    return s_pair(B, env, lambda i: B.rd(cnt, i) / B.rd(cc.bases, i), f1)
+
+
+def s_variance_blocks(B, env, cc):
+    """C11 for a strand: weighted variance, among the respondents of the table base, of the
+    indicator +1 on the addends, -1 on the subtrahends, 0 elsewhere: E[X^2] - E[X]^2; NaN
+    wherever the proportion is"""
+    rows, cnt = env.rows, cc.counts
+    p_b = s_proportion_blocks(B, env, cc)
+
+    def f0(i):
+        p = B.rd(p_b[0], i)
+        return p * (1 - p)
+
+    def f1(s):
+        nt = cc.table_base
+        ex2 = (rows.pos_sum(s, lambda i: B.rd(cnt, i)) + rows.neg_sum(s, lambda i: B.rd(cnt, i))) / nt
+        p = B.rd(p_b[1], s)
+        return ex2 - p * p
+
+    return s_pair(B, env, f0, f1)
+
+
+def s_share_blocks(B, env, sums):
+    """C15 for a strand: sum over the total of the base rows (unavailable sums skipped in the
+    total), for base rows and subtotals alike"""
+    rows = env.rows
+    total = B.Sum(env.R, lambda k: B.ite(B.isnan(B.rd(sums, k)), 0.0, B.rd(sums, k)))
+    return s_pair(
+        B, env,
+        lambda i: B.rd(sums, i) / total,
+        lambda s: rows.signed_sum(s, lambda i: B.rd(sums, i)) / total,
+    )
